@@ -283,6 +283,134 @@ def no_effect_behind_a_short_circuit(prog, rep, R):
     rep.floor(R, "short-circuiting adapter call sites in the core", n, 10)
 
 
+def reflow_root_is_first_pass_root(prog, rep, R):
+    """C03.i = C10.d — "a second run returns the first run's output" / "the layout does not depend on whether a literal had to be
+    re-indented": a line whose multi-line strings were rewritten is wrapped again from the line the FIRST pass wrapped it from.  The
+    first pass starts at every line that has no parent, whose parent does not exist, or whose parent was voided; the reflow climbs from
+    the rewritten line to its root.  Sibling agreement of the two decisions, as decision tables over (has a parent, the parent exists,
+    the parent is voided): the climb goes on exactly where the first pass says `not a root`, and no other fact (the type of the line
+    itself, whether the child is registered in some map ..) takes part.  Where they disagree, the line is re-wrapped from a line the
+    first pass never wrapped it from: with other indentation, or not at all."""
+    from util import family_bodies
+    of = prog.body(OLF_FMT)
+    if not rep.check(of is not None, R, "anchor:OLF::format", "OptimisingLineFormatter::format not found"):
+        return
+
+    def classify(cons, line_hint=None):
+        """(P, G, V, foreign atoms) of a row: P = parent Some/None, G = parent line found Some/None, V = parent Voided True/False; atoms
+        about anything else are foreign (the line's own type `Eof` is reported separately)"""
+        P = G = V = None
+        eof = None
+        foreign = []
+        for c in cons:
+            key = str(c[1])
+            k2 = re.sub(r"branch\((.*)\)(@Continue\.0)?", r"\1", key) if key.startswith("branch(") else key
+            if c[0] == "cond":
+                foreign.append(key[:90])
+            elif re.search(r"(\.parent|get_parent\([^()]*\))$", k2) and "get(" not in k2:
+                P = c[2] if c[0] == "is" else P
+            elif "get(" in k2 and k2.rstrip(")").endswith("line_index") or (key.startswith("branch(get(") and "line_type" not in key):
+                if c[0] == "is":
+                    G = {"Some": "Some", "Continue": "Some", "None": "None", "Break": "None"}.get(c[2], c[2])
+            elif "get(" in key and (key.endswith(".line_type") or key.endswith("line_type)")):
+                if c[0] == "is":
+                    V = True if c[2] == "Voided" else (False if V is None else V)
+                    if c[2] != "Voided":
+                        foreign.append("parent type %s" % c[2])
+                elif c[0] == "not":
+                    if "Voided" in c[2]:
+                        V = False
+                    else:
+                        foreign.append("parent type not in %s" % (c[2],))
+            elif key.endswith(".line_type") or key.endswith("get_line_type(" + (line_hint or "") + ")"):
+                if c[0] == "is" and c[2] == "Eof":
+                    eof = True
+                elif c[0] == "not" and tuple(c[2]) == ("Eof",):
+                    eof = False
+                else:
+                    foreign.append("own line type: %s %s" % (c[0], c[2]))
+            else:
+                foreign.append(key[:90])
+        return P, G, V, eof, foreign
+
+    CASES = [("None", None, None), ("Some", "None", None), ("Some", "Some", True), ("Some", "Some", False)]
+
+    def truth(rows_classified, value_of):
+        """case -> set of outcomes over the rows compatible with it"""
+        out = {}
+        for case in CASES:
+            vals = set()
+            for (P, G, V, eof, foreign), val in rows_classified:
+                if P is not None and P != case[0]:
+                    continue
+                if case[0] == "Some" and G is not None and case[1] is not None and G != case[1]:
+                    continue
+                if case[0] == "None" and (G is not None or V is not None):
+                    continue
+                if case[1] == "None" and V is not None:
+                    continue
+                if case[2] is not None and V is not None and V != case[2]:
+                    continue
+                if eof is True:
+                    continue                     # (the Eof line is never wrapped: not part of the comparison)
+                vals.add(val)
+            out[case] = vals
+        return out
+    # ---- the first pass: the filter in front of the loop that calls format_line
+    first = None
+    for c in of.calls():
+        if (c.callee or "").endswith("Iterator::filter") and "arg3" in canon(of, c.args[0]):
+            clos = of.locals[c.args[1]["place"]["l"]].get("closure") if c.args[1]["k"] in ("copy", "move") else None
+            cb = prog.body(norm(clos)) if clos else None
+            if cb is not None:
+                try:
+                    tb = Table(prog, cb, inline=2)
+                    first = [(classify(cons), render(res)) for cons, res in tb.rows]
+                except TooComplex:
+                    first = None
+    if not rep.check(first is not None, R, "anchor:first-pass-roots", "the filter that selects the lines the first wrapping pass starts from was not found (a closure over the line list in OptimisingLineFormatter::format)"):
+        return
+    ff = [f for cl, _ in first for f in cl[4]]
+    t_first = truth(first, None)
+    # ---- the reflow: the loop that climbs get_parent() in the family of format
+    climb = None
+    where = None
+    for body, anchor, chain in family_bodies(prog, of):
+        if body.npath.endswith("get_line_children"):
+            continue
+        for h, L in body.loops().items():
+            if not any(c.bb in L and ((c.callee or "").endswith("LogicalLine::get_parent")) for c in body.calls()) and \
+                    not any("parent" in canon(body, a) for c in body.calls() if c.bb in L for a in c.args[:1]):
+                continue
+            if any(c.bb in L and (c.callee or "").endswith("Iterator::next") for c in body.calls()):
+                continue
+            exits = {s2 for bb in L for s2 in body.succ[bb] if s2 not in L}
+            try:
+                tb = Table(prog, body, start=h, stop=exits | {h}, inline=2)
+            except TooComplex:
+                continue
+            climb = [(classify(cons), "continue" if end == h else "stop") for (cons, res), end in zip(tb.rows, tb.ends)]
+            where = body
+    if not rep.check(climb is not None, R, "anchor:reflow-climb", "the loop that climbs from a rewritten line to the line its wrapping starts from was not found in the family of OptimisingLineFormatter::format"):
+        return
+    cf = [f for cl, _ in climb for f in cl[4]]
+    t_climb = truth(climb, None)
+    bad = []
+    if cf:
+        bad.append("the climb also looks at %s" % sorted(set(cf))[:2])
+    if ff:
+        bad.append("the first pass also looks at %s" % sorted(set(ff))[:2])
+    for case in CASES:
+        root = t_first.get(case, set())
+        go = t_climb.get(case, set())
+        want_go = {"continue"} if root == {"False"} else ({"stop"} if root == {"True"} else None)
+        if want_go is None or go != want_go:
+            bad.append("parent=%s, parent line found=%s, parent voided=%s: first pass root=%s, climb=%s" % (case[0], case[1], case[2], sorted(root), sorted(go)))
+    rep.check(not bad, R, "reflow-root=first-pass-root",
+              "the line a rewritten line is wrapped again from is not the line the first pass wrapped it from: %s" % bad[:3],
+              where="%s:%d" % (where.file, where.line), instance={"cases": len(CASES), "climb_in": short(where.npath), "deviations": bad[:4]})
+
+
 def string_pass_visits_every_line(prog, rep, R):
     """C12.h — "afterwards the closing quotes and all interior lines are indented exactly like the opening quotes' line": a literal is
     re-indented only when its logical line is handed to StringFormatter::format_multiline_strings, so the pass over the lines hands
@@ -1976,6 +2104,9 @@ SERDE = ["<pasfmt::_::deserialize::__Visitor as serde::de::Visitor>::visit_map",
 
 
 def check_c10(prog, rep, tier, cfg):
+    # C10.d — whether a literal had to be re-indented (which depends on the indentation settings and on the source) must not change from
+    # which line its logical line is wrapped (shared with C03.i)
+    reflow_root_is_first_pass_root(prog, rep, "C10.d")
     R = "C10.a"
     for f in ("use_tabs", "tab_width", "continuation_indents"):
         inventory(rep, R, "readers of FormattingConfig." + f, readers(prog, FC, f), [CONV_RS, DOCS] + SERDE, "indentation options are interpreted at exactly one conversion site")
